@@ -83,8 +83,8 @@ def f1(ctx):
             if isinstance(n, ast.Call):
                 d = dotted(n.func) or ''
                 full = ctx.prog.resolve_name(f.module, d)
-                if full in ('os.rename', 'os.replace', 'os.truncate', 'shutil.move', 'os.link', 'os.symlink') or \
-                        d.endswith('.truncate'):
+                if full in ('os.rename', 'os.replace', 'os.truncate', 'os.ftruncate', 'shutil.move', 'os.link',
+                            'os.symlink'):
                     bad.append((f, n, full))
     obs.append(Ob('F1', 'no-rename-truncate', not bad, 'value files are moved/truncated in place: %s' %
                   ', '.join('%s in %s' % (x, f.qual) for f, n, x in bad), bad[0][0].loc(bad[0][1]) if bad else ''))
@@ -544,6 +544,8 @@ def f7(ctx):
             elif size.k == 'term' and size.a[0] == 'len':
                 x = size.a[1][0]
                 if x.k == 'ext' and x.a[0] in ('pickle.dumps',):
+                    ok = True
+                elif x.k == 'mcall' and x.a[0] in ('getvalue', 'getbuffer'):
                     ok = True
                 elif x.k == 'param':
                     # len(value): bytes only when the path assumed type(value) is bytes
